@@ -473,7 +473,11 @@ def contract_call(X, ins, key, c, argv, iface_sig=None):
                 renv[rn] = sv
         ev2 = SpecEval(V, pkg, renv, post, old=pre, results=rsv)
         ev2.in_callee = True
+        topc = V.contracts['funcs'].get(V.fnkey) or {}
+        light = 'lightcalls' in topc.get('flags', ())
         for k, (lab, ast, txt) in enumerate(c['ensures']):
+            if light and lab and lab.startswith(('inv', 'own', 'orientation', 'hint', 'nobody', 'no_branch')):
+                continue     # flag lightcalls: the caller does not reason about the global invariants; assume less
             X.hyp(ev2.boolean(ast))
         if 'noreturn' in c['flags']:
             X.hyp(z3.BoolVal(False))
